@@ -7,3 +7,4 @@ def build(run):
     run.verify_c([SV.dense_contract(run.sink), SV.sparse_contract(run.sink), SV.sparse_contract(run.sink, tie_bound=False)])
     PS.shortest_pairs_glue(run)
     PS.primitive_svecs_transform(run)
+    PS.entry_point_forwards_arguments(run)
